@@ -137,14 +137,20 @@ def run_check(pid, tier, seed):
     if hasattr(hm, 'validate'):
         import signal
 
+        class _ValidationTimeout(BaseException):
+            pass
+
         def _alarm(signum, frame):
-            raise TimeoutError('model validation did not finish within 600 s')
+            raise _ValidationTimeout()
         signal.signal(signal.SIGALRM, _alarm)
-        signal.alarm(600)
+        signal.alarm(240)
         try:
             validated = int(hm.validate(tier))
             signal.alarm(0)
             log('  validation of models/translation against the real code: %d concrete runs agree' % validated)
+        except _ValidationTimeout:
+            inconclusive.append('model validation did not finish within 240 s (non-terminating code under test?)')
+            log('  MODEL VALIDATION TIMEOUT')
         except AssertionError as e:
             inconclusive.append('model validation failed: %s' % (str(e)[:500],))
             log('  MODEL VALIDATION FAILED: %s' % (str(e)[:800],))
@@ -230,7 +236,7 @@ def run_check(pid, tier, seed):
             if key in seen:
                 continue
             seen.add(key)
-            if per_label.get(v['label'], 0) >= 40 or len(files) >= 160:
+            if per_label.get(v['label'], 0) >= (3 if v['label'] == 'nontermination' else 40) or len(files) >= 160:
                 continue
             per_label[v['label']] = per_label.get(v['label'], 0) + 1
             h = hashlib.sha1((ob.name + wj).encode()).hexdigest()[:12]
